@@ -921,7 +921,10 @@ func newMessage(gen *Plugin, f *File, parent *Message, desc protoreflect.Message
 			name += "_"
 		}
 		usedNames[name] = true
-		usedNames["Get"+name] = hasGetter
+		if hasGetter {
+			// Never clear an entry: "Get"+name may be held by an earlier field or oneof.
+			usedNames["Get"+name] = true
+		}
 		return name
 	}
 	for _, field := range message.Fields {
